@@ -155,6 +155,10 @@ func c04Worker(w *W) {
 		c04backlog(w)
 		return
 	}
+	if w.Spec.Kind == "relife" {
+		c04relife(w)
+		return
+	}
 	registerMonitorPlugins()
 	tag := log.RegisterTag("c04tag")
 	ctx := context.Background()
@@ -393,6 +397,14 @@ func init() {
 				b.Args["policy"] = pol
 				b.TimeoutS = int(d.Pick(300, 900))
 				specs = append(specs, b)
+			}
+			for i := 0; i < int(d.Pick(2, 6)); i++ {
+				s := d.NewSpec("relife", fmt.Sprintf("relife-%d", i), 300+i, 16)
+				s.N = d.Pick(6, 40)
+				if i == 1 {
+					s.Flavour = "race"
+				}
+				specs = append(specs, s)
 			}
 			specs = d.WithRuntimeVariants(specs, int(d.Pick(3, 1)), func(s Spec) bool { return s.Kind == "cons" })
 			outs := d.RunWorkers(specs, 16)
